@@ -281,10 +281,34 @@ func RunSeq(env *Env, ops []Op, order []int) []string {
 // RunConc runs every call of the batch once, spread over g goroutines that start together.
 // The split is static (goroutine k runs calls k, k+g, …): a shared work counter would be an atomic
 // and order the calls of different goroutines by happens-before, hiding races from the detector.
-func RunConc(env *Env, ops []Op, g int) []string {
+func RunConc(env *Env, ops []Op, g int) []string { return runConc(env, ops, g, false) }
+
+// RunConcGC does the same while one more goroutine forces garbage collections: a collection empties
+// the per-processor parts of the sync.Pools, so goroutines take recycled objects from each other
+// much more often (an object that was released too early is then really handed to someone else).
+func RunConcGC(env *Env, ops []Op, g int) []string { return runConc(env, ops, g, true) }
+
+func runConc(env *Env, ops []Op, g int, gc bool) []string {
 	res := make([]string, len(ops))
 	var wg sync.WaitGroup
 	start := make(chan struct{})
+	stop := make(chan struct{})
+	gcDone := make(chan struct{})
+	go func() {
+		defer close(gcDone)
+		if !gc {
+			return
+		}
+		<-start
+		for {
+			select {
+			case <-stop:
+				return
+			default:
+				runtime.GC()
+			}
+		}
+	}()
 	for k := 0; k < g; k++ {
 		wg.Add(1)
 		go func(k int) {
@@ -298,5 +322,7 @@ func RunConc(env *Env, ops []Op, g int) []string {
 	}
 	close(start)
 	wg.Wait()
+	close(stop)
+	<-gcDone
 	return res
 }
